@@ -72,6 +72,23 @@ func headerMutations(p *core.Prog, fn *ssa.Function, tn string) []ssa.Instructio
 			}
 		case *ssa.Call:
 			ci := core.InfoOf(&x.Call)
+			// a helper of the module that is handed the header store and updates the map it is given
+			if ci.Static != nil && ci.Static.Blocks != nil && strings.HasPrefix(ci.Pkg, core.ModulePath) {
+				for i, a := range x.Call.Args {
+					if core.TypeStr(a.Type()) != metadataPkg+".MD" || i >= len(ci.Static.Params) {
+						continue
+					}
+					if !core.OriginIs(a, func(o ssa.Value) bool {
+						base, f, ok := core.FieldOf(o)
+						return ok && core.NamedOf(base.Type()) == tn && strings.HasPrefix(strings.ToLower(f), "h")
+					}) {
+						continue
+					}
+					if updatesMapParam(ci.Static, ci.Static.Params[i]) {
+						out = append(out, in)
+					}
+				}
+			}
 			// writing into the response's http.Header through a converter, or WriteHeader
 			if ci.Static != nil && core.PkgIs(ci.Static, "httpgrpc") && len(x.Call.Args) >= 2 && core.TypeStr(x.Call.Args[1].Type()) == "net/http.Header" {
 				out = append(out, in)
@@ -530,6 +547,23 @@ func c03Typestate(c *core.Ctx, nt *types.Named) {
 					guardedMut = true
 				}
 			}
+			// the update done by a helper of the module that is handed the trailer store
+			if call, ok := in.(*ssa.Call); ok {
+				ci := core.InfoOf(&call.Call)
+				if ci.Static != nil && ci.Static.Blocks != nil && strings.HasPrefix(ci.Pkg, core.ModulePath) {
+					for i, a := range call.Call.Args {
+						if core.TypeStr(a.Type()) != metadataPkg+".MD" || i >= len(ci.Static.Params) || !updatesMapParam(ci.Static, ci.Static.Params[i]) {
+							continue
+						}
+						if _, _, isField := core.FieldOf(a); !isField && !core.OriginIs(a, func(o ssa.Value) bool { _, _, ok := core.FieldOf(o); return ok }) {
+							continue
+						}
+						if core.GuardedBy(call, func(fc core.Fact) bool { _, _, ok := core.FieldOf(fc.X); return ok }) {
+							guardedMut = true
+						}
+					}
+				}
+			}
 		})
 		for _, r := range core.Returns(tm) {
 			if core.ClassifyErr(r.Results[0], r) == core.ErrNonNil {
@@ -738,14 +772,10 @@ func c03CallOptions(c *core.Ctx) {
 				if onlyTests {
 					return
 				}
-				isFan := func(x ssa.Instruction) bool {
-					cc := core.CallOf(x)
-					if cc == nil {
-						return false
-					}
+				isFan := mustCaller(func(cc *ssa.CallCommon) bool {
 					ci := core.InfoOf(cc)
 					return ci.Name == nd.call && ci.Recv == "CallOptions"
-				}
+				})
 				okPath := true
 				for _, r := range core.Returns(fn) {
 					if core.Reachable(core.After(in), r) && !core.MustPass(core.After(in), r, isFan) {
@@ -755,7 +785,11 @@ func c03CallOptions(c *core.Ctx) {
 				c.Check(okPath, core.FuncName(fn)+":"+nd.call+":on-every-path", in.Pos(), "after reading the "+nd.field+" of a received frame every path to a return passes "+nd.call, "the "+nd.field+" of a received frame are read, but a path to a return does not pass "+nd.call+": on that path Header()/Trailer() may see them while the grpc.Header/grpc.Trailer call options stay empty")
 			})
 			// skip pure predicates (len(...) tests in the server goroutine use literals, not loads)
-			has := len(core.CallsIn(fn, func(_ *ssa.Call, ci core.CallInfo) bool { return ci.Name == nd.call && ci.Recv == "CallOptions" })) > 0
+			fan := mustCaller(func(cc *ssa.CallCommon) bool {
+				ci := core.InfoOf(cc)
+				return ci.Name == nd.call && ci.Recv == "CallOptions"
+			})
+			has := len(core.CallsIn(fn, func(call *ssa.Call, _ core.CallInfo) bool { return fan(call) })) > 0
 			c.Check(has, core.FuncName(fn)+":"+nd.call, pos, "received "+nd.field+" are handed to the call options", "a client path reads the "+nd.field+" of a received frame but never calls "+nd.call+": grpc.Header/grpc.Trailer call options stay empty on this path")
 		}
 	}
@@ -1421,4 +1455,20 @@ func parkedKinds(kinds map[string]int64, st *ssa.Store) (map[string]int64, bool)
 		}
 	}
 	return possible, true
+}
+
+// updatesMapParam: fn stores into the map it receives as par (directly, or into
+// the map it allocates in par's place when par is nil and returns).
+func updatesMapParam(fn *ssa.Function, par *ssa.Parameter) bool {
+	found := false
+	core.Instrs(fn, func(in ssa.Instruction) {
+		mu, ok := in.(*ssa.MapUpdate)
+		if !ok {
+			return
+		}
+		if core.OriginIs(mu.Map, func(o ssa.Value) bool { return o == ssa.Value(par) }) {
+			found = true
+		}
+	})
+	return found
 }
